@@ -91,8 +91,34 @@ func runFreeConc(t *testing.T, rc *RunCtx) {
 	workers := 4 + ch.Pick(7, 0)
 	rounds := 20 + ch.Pick(40, 0)
 	work := make([][]*Op, workers)
+	// A third of the runs: wide batches (9-18 of Wallet 1's accounts each, in drawn orders) - more entries per request
+	// than a small machine has processors, several such requests in flight at once.
+	wide := ch.Pick(3, 0) == 2
+	if wide {
+		rc.Stats.Inc("free_running_runs_with_wide_batches", 1)
+	}
 	for w := range work {
 		work[w] = genConcOps(rc, nKeys, rounds, false)
+		if wide {
+			uniq := uint64(w+1) * 1_000_000
+			for i := range work[w] {
+				n := 9 + ch.Pick(10, 0)
+				perm := make([]int, 20)
+				for k := range perm {
+					perm[k] = k
+				}
+				for k := len(perm) - 1; k > 0; k-- {
+					j := ch.Pick(k+1, 0)
+					perm[k], perm[j] = perm[j], perm[k]
+				}
+				o := &Op{Kind: "atts"}
+				for k := 0; k < n; k++ {
+					uniq++
+					o.Entries = append(o.Entries, AttEntry(perm[k], uint64(i), uint64(i+1), uniq))
+				}
+				work[w][i] = o
+			}
+		}
 		for _, o := range work[w] {
 			// Unique epochs are irrelevant here; what matters is which keys are named in which order.
 			o.Client = []string{"client1", "client2"}[w%2]
